@@ -119,6 +119,9 @@ def check_property(prop, tier, verbose=False):
     recs = []
     functions = {}
     havocs = []
+    twin = dict(evaluations=0, distinct_nontrivial=0, failures=[], samples=[],
+                rule='run-time twin: random small real instances (grid <= 4-6 steps, values from a fixed menu incl. 0 and negatives, non-uniform steps, adversarial names) built with the real constructors, the real function called, the contract post evaluated on the real result; non-trivial = distinct parameter set whose call returned and satisfied at least one predicate',
+                bound='sizes <= 6, VERIF_SEED-seeded sample per contract case (quick 40, thorough 400)')
     for res in results:
         c = reg[res['ci']]
         if res['error']:
@@ -133,12 +136,32 @@ def check_property(prop, tier, verbose=False):
         for rec in res['obligations']:
             if runner.belongs(prop, rec['name']):
                 recs.append(rec)
+        b = res.get('bounded')
+        if b:
+            twin['evaluations'] += b['evaluations']
+            twin['distinct_nontrivial'] += b['distinct_nontrivial']
+            if b.get('sample') and len(twin['samples']) < 3:
+                twin['samples'].append(dict(function=c.qualname, case=res['case'], **b['sample']))
+            for f in b['failures']:
+                if f.get('error'):
+                    errors.append(f"run-time twin error in {f['function']} [{f['case']}]: {f['detail']}")
+                elif runner.belongs(prop, f['name']):
+                    twin['failures'].append(f)
     # ------------------------------------------------------------------ lemmas, static and bounded parts
     from pyvc import extras
     extra = extras.run(prop, tier, seed)
     recs.extend(extra.get('obligations', []))
     errors.extend(extra.get('errors', []))
     bounded = extra.get('bounded', None)
+    if twin['evaluations']:
+        if bounded is None:
+            bounded = dict(evaluations=0, distinct_nontrivial=0, rule='', bound='', failures=[], samples=[], parts=[])
+        bounded['evaluations'] += twin['evaluations']
+        bounded['distinct_nontrivial'] += twin['distinct_nontrivial']
+        bounded['rule'] = (bounded['rule'] + ' | ' if bounded['rule'] else '') + twin['rule']
+        bounded['bound'] = (bounded['bound'] + ' | ' if bounded['bound'] else '') + twin['bound']
+        bounded['failures'] = list(bounded['failures']) + twin['failures']
+        bounded['samples'] = list(bounded.get('samples', [])) + twin['samples']
     # ------------------------------------------------------------------ aggregate per obligation identity
     groups = {}
     for rec in recs:
